@@ -46,6 +46,7 @@ Shape(i, s, o1, o2) ==
     [] i = 20 -> [rw |-> Un(<<TTU(s, "p"), CU(o1)>>), restr |-> <<>>]
     [] i = 21 -> [rw |-> This, restr |-> <<Wi("user"), Us("doc", s), Wi("grp")>>]          \* public types around a self userset
     [] i = 22 -> [rw |-> This, restr |-> <<Wi("user"), Us("doc", o1), Wi("grp"), Ty("user")>>]  \* ... around a userset cycle
+    [] i = 24 -> [rw |-> In(<<This, CU(o1), CU(o1)>>), restr |-> <<Ty("grp")>>]                 \* three single-edge operands (D16 when o1 has no grp)
     [] i = 23 -> [rw |-> Un(<<TTU("a", "q"), This>>), restr |-> <<TyC("user", "c"), Ty("user"), Wi("user")>>]
 
 FreeNames == IF NFree = 2 THEN <<"x", "y">> ELSE <<"x", "y", "z">>
